@@ -57,10 +57,29 @@ contract(F + "::Ribosome.register_template", "C12", params={"template": "obj:mRN
          xensures={"a-nameless-template-is-refused": "(name is None or len(name) == 0) and len(template.name) == 0"})
 
 
+# the convenience front end: the template that reaches the registry carries exactly the given text and name (nothing is rewritten on the way in)
+contract(F + "::Ribosome.create_template", "C12", params={"sequence": "str", "name": "str", "description": "str"},
+         callbacks={"Ribosome.register_template": {"returns": "any", "raises": ("ValueError",)},
+                    "mRNA._detect_codons": {"returns": "list:any", "raises": ()}}, raises=["ValueError"],
+         callsite_pre={".register_template": {"registers-the-text-as-given": "calls_to('.register_template') == 0 and arg0.sequence == sequence and arg0.name == name"}},
+         ensures={"registered-once-and-returned": "calls_to('.register_template') == 1 and result.sequence == sequence and result.name == name"})
+
+
 def native_replay(rep):
     import os, sys
     sys.path.insert(0, os.path.dirname(os.path.dirname(os.path.abspath(__file__))))
     from native import c12_bounded
+    if str(rep.get("target", "")).endswith("Ribosome.create_template"):
+        # the front end on texts with edge whitespace, braces, empty text: what is registered and returned carries the given text and name
+        from operon_ai.organelles.ribosome import Ribosome
+        for seq in ("", "x", " x", "x ", "\n{{a}}\n", "  {{#if a}} y {{/if}}  ", "{{>inc}}", "\t", "A{{a|upper}}"):
+            for name in ("t", " t ", "T{{a}}"):
+                r = Ribosome(silent=True)
+                t = r.create_template(seq, name, "d")
+                reg = r.templates.get(name)
+                if t.sequence != seq or t.name != name or reg is not t:
+                    return {"confirmed": True, "found_by": "create_template on edge texts",
+                            "observed": f"create_template({seq!r}, {name!r}) -> sequence {t.sequence!r}, name {t.name!r}, registered under the name: {reg is t}"}
     n, bad, seen = c12_bounded.search(0, 200)
     if bad is None:
         return {"confirmed": False, "observed": f"no unlisted disagreement among {n} generated templates"}
